@@ -26,10 +26,13 @@ U   == {uni[j] : j \in DOMAIN uni}
 AtomOf(x) == [op |-> x.op, S |-> {x.vals[j] : j \in DOMAIN x.vals}, b |-> x.b, mv |-> x.mv]
 AtomsOf(xs) == [j \in DOMAIN xs |-> AtomOf(xs[j])]
 HasVec(as) == [j \in DOMAIN uni |-> AdmitsAll(as, uni[j])]
-OpsSig(as) == IF Len(as) = 1 THEN as[1].op
-              ELSE IF Len(as) = 2 THEN as[1].op \o "+" \o as[2].op
-              ELSE IF Len(as) = 3 THEN as[1].op \o "+" \o as[2].op \o "+" \o as[3].op
-              ELSE "chain"
+\* coarse witness class of a chain: which kinds of operators it mixes (keeps the number of distinct signatures small)
+OpsSig(as) ==
+    LET Has(o) == \E j \in DOMAIN as : as[j].op \in o
+        T(b, t) == IF b THEN t ELSE ""
+    IN T(Has({"In"}), "In.") \o T(Has({"NotIn"}), "NotIn.") \o T(Has({"Exists"}), "Exists.")
+       \o T(Has({"DoesNotExist"}), "DoesNotExist.") \o T(Has({"Gt", "Gte"}), "lower.") \o T(Has({"Lt", "Lte"}), "upper.")
+       \o (IF Len(as) = 1 THEN "single" ELSE "chain")
 
 \* a failed guard: set of (guard, sig) pairs
 F(ok, guard, sig) == IF ok THEN {} ELSE {<<guard, sig>>}
@@ -167,10 +170,15 @@ MultiFails ==
             \cup F(e.ints = semI, "G_C12_Compatible", CDir(~semI) \o ClsOver({k \in KA \cap KB : ~SemKey(k, FALSE)}))
 
 \* ---------------------------------------------------------------- bookkeeping
+MaxSigs == 8
 Key(p) == p[1] \o "|" \o p[2]
 Record(fails) ==
+    \* first witness of every (guard, signature); at most MaxSigs signatures per guard are kept with a witness (a
+    \* broken build can fail in hundreds of classes; `cnt` still counts them all).  MaxSigs exceeds the number of
+    \* known-finding signatures of any guard, so a fresh signature is never crowded out by known ones.
     /\ viol' = viol \cup {[guard |-> p[1], sig |-> p[2], line |-> l, id |-> Ev.id] :
-                            p \in {q \in fails : ~\E y \in viol : y.guard = q[1] /\ y.sig = q[2]}}
+                            p \in {q \in fails : /\ ~\E y \in viol : y.guard = q[1] /\ y.sig = q[2]
+                                                  /\ Cardinality({y \in viol : y.guard = q[1]}) < MaxSigs}}
     /\ cnt' = LET ks == {Key(p) : p \in fails} IN
               [k \in DOMAIN cnt \cup ks |-> (IF k \in DOMAIN cnt THEN cnt[k] ELSE 0) + (IF k \in ks THEN 1 ELSE 0)]
 
